@@ -58,7 +58,7 @@ theorem consumeComment_le_len (inp : List Nat) (pos : Nat) (h : pos ≤ inp.leng
   split
   · rename_i h1 h2
     have hlt : pos + 1 < inp.length := (List.getElem?_eq_some_iff.mp h2).1
-    have := countWhile_le (fun c => c != 10) (inp.drop (pos + 2))
+    have := countWhile_le (fun c => !isVerticalSpace c) (inp.drop (pos + 2))
     simp only [List.length_drop] at this
     omega
   · rename_i h1 h2
